@@ -259,3 +259,73 @@ func Harness_C02_OrderLimit() {
 	}
 	vs.Cover("C02/order-done")
 }
+
+//verif:harness prop=C02 bounds="select a from t UNION [ALL] select a from t [UNION [ALL] select a from t]: 2..3 operands whose (already merged) results hold 0..2 rows each (the third operand 0..1) with a one-letter string value a or b (enumerated: the values only meet in map keys); every combination of UNION / UNION ALL; merged by the real UnionPlan.MergeUnionResult and compared as a multiset with SQL's left-to-right UNION semantics"
+func Harness_C02_Union() {
+	nops := vs.IntRange("operands", 2, 3)
+	sql := "select a from t"
+	all := make([]bool, nops)
+	for i := 1; i < nops; i++ {
+		all[i] = vs.Choice("unionAll", 2) == 1
+		if all[i] {
+			sql += " union all select a from t"
+		} else {
+			sql += " union select a from t"
+		}
+	}
+	rt := vhRouter(&models.Shard{DB: "db", Table: "t", Type: models.ShardHash, Key: "id", Locations: []int{1, 1}, Slices: []string{"s0", "s1"}})
+	stmt, err := parser.ParseSQL(sql)
+	vs.Assert(err == nil, "C02/union-fixture-parses")
+	if err != nil {
+		return
+	}
+	pl, err := BuildPlan(stmt, nil, "db", sql, rt, sequence.NewSequenceManager(), nil)
+	if err != nil {
+		vs.Cover("C02/union-rejected")
+		return
+	}
+	up, ok := pl.(*UnionPlan)
+	vs.Assert(ok, "C02/union-plan")
+	if !ok {
+		return
+	}
+	var rs []*mysql.Result
+	// expected multiset, as counts of the values a, b
+	var want [2]int
+	for i := 0; i < nops; i++ {
+		n := vs.IntRange("rows", 0, 2-i/2)
+		var vals [][]interface{}
+		var have [2]int
+		for k := 0; k < n; k++ {
+			c := vs.Choice("a", 2)
+			vals = append(vals, []interface{}{string([]byte{byte('a' + c)})})
+			have[c]++
+		}
+		rs = append(rs, vhC02Result(1, vals))
+		for v := 0; v < 2; v++ {
+			if i == 0 || all[i] {
+				want[v] += have[v]
+			} else if want[v]+have[v] > 0 { // UNION DISTINCT: the accumulated rows and the new ones, without duplicates
+				want[v] = 1
+			}
+		}
+	}
+	got, err := up.MergeUnionResult(rs)
+	if err != nil {
+		vs.Cover("C02/union-merge-error")
+		return
+	}
+	var cnt [2]int
+	for _, row := range got.Values {
+		a, ok := row[0].(string)
+		vs.Assert(ok && (a == "a" || a == "b"), "C02/union-value-type")
+		if !ok || (a != "a" && a != "b") {
+			return
+		}
+		cnt[a[0]-'a']++
+	}
+	for v := 0; v < 2; v++ {
+		vs.Assert(cnt[v] == want[v], "C02/union-result-is-the-sql-union-of-the-operands")
+	}
+	vs.Cover("C02/union-done")
+}
